@@ -149,6 +149,12 @@ def gen(ctx, n):
         ops.append(dict(op='write', s=0, n=nbytes, seed=nbytes, to=dict(addr='10.0.0.9', port=7)))
     for nbytes in (65527, 65528, 65535):
         ops.append(dict(op='write', s=1, n=nbytes, seed=nbytes, to=dict(addr='fd00::9', port=7)))
+    # a dual-stack IPv6 socket writing to a v4-mapped destination sends over IPv4: the IPv4 limit applies
+    for nbytes in (100, 65506, 65507, 65508, 65527, 65528):
+        ops.append(dict(op='write', s=1, n=nbytes, seed=nbytes, to=dict(addr='::ffff:10.0.0.9', port=7)))
+    ops += [dict(op='udp', s=2, v=6), dict(op='connect', s=2, addr='::ffff:10.0.0.8', port=9)]
+    for nbytes in (7, 65507, 65508, 65520):
+        ops.append(dict(op='write', s=2, n=nbytes, seed=nbytes))
     out.append(dict(nics=[NIC], ops=ops))
     return out
 
